@@ -98,7 +98,7 @@ def run(res, tier, seed):
             if plans.index((fmt, sc, year, drift)) in (0, 4) and not long_done.get((fmt, sc)):
                 long_done[(fmt, sc)] = True
                 n = 1300          # one pass of more than 1024 lines per family
-            kind = rng.choice(["midnight", "midnight", "newyear", "plain", "leapday", "day366", "twosteps"])
+            kind = rng.choice(["midnight", "midnight", "newyear", "plain", "plain", "leapday", "day366", "twosteps"])
             scripted = None
             if drift and fam == "pod" and not script_done.get(fmt):
                 # once per POD format: the metadata functions are asked BEFORE any coordinate is computed, on a pass whose
@@ -128,6 +128,8 @@ def run(res, tier, seed):
                 k = rng.choice([1, 1, n - 1, rng.randrange(2, n - 2), rng.randrange(2, n - 2)])   # incl. right after the first / before the last line
                 # boundary shortly before line k: a clock error of ~1 s then moves line k (and k+1) back across it
                 start = b - int((nums[k] - nums[0]) * per) + rng.choice([100, 300, 600, 5000])
+            if kind == "plain" and rng.random() < 0.5:
+                start = (start // 86400000) * 86400000        # the first line exactly at 00:00:00.000 UTC
             rec = tg.recorded_ms(fmt, nums, start)
             p = dict(fmt=fmt, nums=nums, rec=rec, header=tg.header_ms(fmt, nums, start, "line1"), start=start)
             lines = []
